@@ -724,6 +724,46 @@ func genEPUB(t *rapid.T) ECase {
 			it.Path = strings.ReplaceAll(it.Path, "+", "-")
 		}
 	}
+	// EPUB 2: the other two OPS 2.0 core content document types may stand in the spine (OPS 2.0.1 section 1.3.7: DTBook;
+	// OEBPS 1.2 documents "text/x-oeb1-document", deprecated but still a core media type, OPF 2.0.1 1.3.7)
+	if strings.HasPrefix(b.Version, "2") && rapid.IntRange(0, 2).Draw(t, "legacyContentDocs") == 0 {
+		for _, sp := range b.Spine {
+			it := &b.Items[sp.Item]
+			if it.Role != "" || it.Missing || it.MediaType != "" || it.Data != nil || len(it.Chapter.Texts()) == 0 || it.Chapter.Body != "" {
+				continue
+			}
+			switch rapid.IntRange(0, 3).Draw(t, "legacyKind") {
+			case 0:
+				it.MediaType = "application/x-dtbook+xml"
+				var sb strings.Builder
+				sb.WriteString("<?xml version=\"1.0\" encoding=\"UTF-8\"?>\n<dtbook xmlns=\"http://www.daisy.org/z3986/2005/dtbook/\" version=\"2005-3\" xml:lang=\"en\">\n<book><bodymatter><level1>\n")
+				if it.Chapter.Heading != "" {
+					sb.WriteString("<h1>" + it.Chapter.Heading + "</h1>\n")
+				}
+				for _, p := range it.Chapter.Paras {
+					if p != "" {
+						sb.WriteString("<p>" + p + "</p>\n")
+					}
+				}
+				sb.WriteString("</level1></bodymatter></book>\n</dtbook>\n")
+				it.Data = []byte(sb.String())
+			case 1:
+				it.MediaType = "text/x-oeb1-document"
+				var sb strings.Builder
+				sb.WriteString("<?xml version=\"1.0\"?>\n<!DOCTYPE html PUBLIC \"+//ISBN 0-9673008-1-9//DTD OEB 1.2 Document//EN\" \"http://openebook.org/dtds/oeb-1.2/oebdoc12.dtd\">\n<html><head><title>t</title></head><body>\n")
+				if it.Chapter.Heading != "" {
+					sb.WriteString("<h1>" + it.Chapter.Heading + "</h1>\n")
+				}
+				for _, p := range it.Chapter.Paras {
+					if p != "" {
+						sb.WriteString("<p>" + p + "</p>\n")
+					}
+				}
+				sb.WriteString("</body></html>\n")
+				it.Data = []byte(sb.String())
+			}
+		}
+	}
 	// a second rendition: its own package document and chapters below alt/, listed as a later rootfile. The default
 	// rendition is the first package rootfile; nothing of the other rendition is part of the document.
 	if rapid.IntRange(0, 4).Draw(t, "altRendition") == 0 {
@@ -778,6 +818,7 @@ func metaEPUB(c ECase) vr.Meta {
 	}
 	for _, it := range b.Items {
 		flags["epub:has-nav"] = flags["epub:has-nav"] || it.Role == "nav"
+		flags["epub:dtbook-or-oeb1-in-spine"] = flags["epub:dtbook-or-oeb1-in-spine"] || it.MediaType == "application/x-dtbook+xml" || it.MediaType == "text/x-oeb1-document"
 		flags["epub:has-ncx"] = flags["epub:has-ncx"] || it.Role == "ncx"
 	}
 	flags["epub:decoy-files"] = len(b.Decoys) > 0
